@@ -15,7 +15,7 @@ type c09Case struct {
 	Client bool   `json:"client"`
 	Peer   string `json:"peer"`  // silent | stall-header | stall-header-after-frame | stall-payload | flood-frames | flood-one-frame | never-reads | half-close | data-to-closeread
 	K      int    `json:"k"`     // bytes sent before stalling
-	Local  string `json:"local"` // idle | reader-blocked | half-read | closeread | writer-blocked | writer-arrives | pinger-arrives
+	Local  string `json:"local"` // idle | reader-blocked | half-read | half-read-then-reader | closeread | writer-blocked | writer-arrives | pinger-arrives
 	Op     string `json:"op"`    // close | closenow | none (data-to-closeread)
 }
 
@@ -61,6 +61,13 @@ func runC09Case(cc c09Case) (string, string) {
 		}()
 	case "half-read":
 		halfRead()
+	case "half-read-then-reader":
+		// the application asks for the next message while the current one is unfinished: the documented error — after which
+		// Close / CloseNow must still end in time
+		halfRead()
+		rctx, rcancel := context.WithTimeout(bg, time.Second)
+		c.Reader(rctx)
+		rcancel()
 	case "closeread":
 		crCtx = c.CloseRead(bg)
 	case "writer-blocked":
@@ -284,6 +291,8 @@ func runC09(ctx *runCtx) {
 			cases = append(cases, c09Case{Client: client, Peer: "flood-never-reads", Local: "reader-blocked", Op: op},
 				c09Case{Client: client, Peer: "flood-never-reads", Local: "closeread", Op: op},
 				c09Case{Client: client, Peer: "silent", Local: "queued-writer", Op: op},
+				c09Case{Client: client, Peer: "silent", Local: "half-read-then-reader", Op: op},
+				c09Case{Client: client, Peer: "stall-payload", K: 100, Local: "half-read-then-reader", Op: op},
 				c09Case{Client: client, Peer: "silent", Local: "pinger-arrives", Op: op},
 				c09Case{Client: client, Peer: "stall-payload", K: 100, Local: "pinger-arrives", Op: op})
 		}
